@@ -191,6 +191,35 @@ func observeSplit(c *fw.Case, entry, text string, req int, refByte byte) *splitO
 		o.panicSig, o.panicText = fw.PanicSig(val, st), fmt.Sprintf("panic: %v\n%s", val, st)
 		return o
 	}
+	// the answer is a function of the request: asked again after the next case (fresh builder for the Build entries)
+	c.Echo("split/"+entry, func() string {
+		var parts [][]byte
+		var rep int = -1
+		var err error
+		switch entry {
+		case "CMPP":
+			var f datacoding.CMPPDataCoding
+			parts, f, err = protocol.EncodeCMPPContentAndSplit(ctx, text, datacoding.CMPPDataCoding(req), refByte)
+			rep = int(f)
+		case "SMPP":
+			var f datacoding.SMPPDataCoding
+			parts, f, err = protocol.EncodeSMPPContentAndSplit(ctx, text, datacoding.SMPPDataCoding(req), refByte)
+			rep = int(f)
+		case "Build-CMPP":
+			var f datacoding.ProtocolDataCoding
+			parts, f, err = protocol.NewBatchDataCodingEncoder().Protocol(protocol.CMPP).DataCodings([]datacoding.ProtocolDataCoding{datacoding.CMPPDataCoding(req)}).Content(text, refByte).Build(ctx)
+			if f != nil {
+				rep = f.ToInt()
+			}
+		case "Build-SMPP":
+			var f datacoding.ProtocolDataCoding
+			parts, f, err = protocol.NewBatchDataCodingEncoder().Protocol(protocol.SMPP).DataCodings([]datacoding.ProtocolDataCoding{datacoding.SMPPDataCoding(req)}).Content(text, refByte).Build(ctx)
+			if f != nil {
+				rep = f.ToInt()
+			}
+		}
+		return fmt.Sprintf("coding=%d err=%v parts=%s", rep, err != nil, digestParts(parts, nil))
+	})
 	if entry == "CMPP" || entry == "Build-CMPP" {
 		o.repKind, o.repKnown = cmppKind(o.repNum)
 	} else {
